@@ -139,8 +139,12 @@ class LockStep:
         c = self.res['counters']
         c[k] = c.get(k, 0) + n
 
-    def report(self, key, desc, replay):
+    def report(self, key, desc, replay, pre=None):
         if key not in self.viol:
+            if pre is not None:
+                # the complete pre-state of the first case of the cluster (registers, system registers, all memory): the
+                # replay restores it and repeats the judged step, whatever hooks had prepared the state
+                replay = dict(replay, snapshot=observe.jsonable(pre, mem=True))
             self.viol[key] = dict(key=key, desc=desc, replay=replay, count=0)
         self.viol[key]['count'] += 1
 
@@ -250,7 +254,7 @@ class LockStep:
             d = dict(desc, row=rowname, operands={k_: str(v) for k_, v in (info.get('ops') or {}).items()},
                      diffs=[(l, '%#x' % e if isinstance(e, int) else str(e), '%#x' % g if isinstance(g, int) else str(g))
                             for l, e, g in diffs[:6]])
-            self.report(key, d, desc)
+            self.report(key, d, desc, pre=pre)
             return 'violation', info
         if len(self.res['samples']) < 3 and self.rng.random() < 0.003:
             self.res['samples'].append(dict(desc, row=rowname, outcome='agrees with reference',
